@@ -65,6 +65,7 @@ class InverterProtocol:
     def _max_retries_reached(self) -> Future:
         logger.debug("Max number of retries (%d) reached, request %s failed.", self.retries, self.command)
         self._close_transport()
+        self._retry = 0
         self.response_future = asyncio.get_running_loop().create_future()
         self.response_future.set_exception(MaxRetriesException)
         return self.response_future
@@ -193,6 +194,9 @@ class UdpInverterProtocol(InverterProtocol, asyncio.DatagramProtocol):
                     self._close_transport()
                 return await self.send_request(command)
             return self._max_retries_reached()
+        except Exception:
+            self._retry = 0
+            raise
         finally:
             if self._lock and self._lock.locked():
                 self._lock.release()
@@ -346,6 +350,9 @@ class TcpInverterProtocol(InverterProtocol, asyncio.Protocol):
                     self._lock.release()
                 return await self.send_request(command)
             return self._max_retries_reached()
+        except Exception:
+            self._retry = 0
+            raise
         finally:
             if self._lock and self._lock.locked():
                 self._lock.release()
